@@ -4,13 +4,15 @@
 # usage: tools/mutation_campaign.sh [max mutants per file (default 40)] [instance k] [instances n]  -> /var/tmp/mutation.<k>.tsv
 # (instance k of n takes every n-th target file; run n instances side by side)
 set -u
+VHOME=$(cd "$(dirname "$0")/.." && pwd)   # the checks of the tree this script lives in (a snapshot works too)
 export GOFLAGS=-mod=mod GOPROXY=off GOSUMDB=off
 MAXPER=${1:-40}
 INST=${2:-0}; NINST=${3:-1}
 OUT=${MUT_OUT:-/var/tmp/mutation.$INST.tsv}
 wt=/var/tmp/mut-wt-$INST
-cd /verif
-[ -x /verif/.cache/mutate ] || (cd tools/mutate && go build -o /verif/.cache/mutate .)
+cd "$VHOME"
+mkdir -p "$VHOME/.cache"
+[ -x "$VHOME/.cache/mutate" ] || (cd tools/mutate && go build -o "$VHOME/.cache/mutate" .)
 rm -rf $wt; git -C /repo worktree prune; git -C /repo worktree add --detach $wt HEAD -q || exit 2
 flaky='TestPublishSubscribe_persistent|TestPublishSubscribe_race_condition_on_subscribe|TestMapExpiringKeyRepositoryCleanup|TestRequestReply_parallel_same_handler'
 # file | upstream test packages | properties
@@ -51,12 +53,13 @@ components/metrics/publisher.go|./components/metrics/|C20
 components/metrics/subscriber.go|./components/metrics/|C20
 components/metrics/handler.go|./components/metrics/|C20
 "
+[ -n "${MUT_TARGETS:-}" ] && targets=$(cat "$MUT_TARGETS")
 echo -e "file\tmutant\top\tline\tdescription\tverdict\tdetail" > $OUT
 echo "$targets" | while IFS='|' read -r file pkgs props; do
   [ -z "$file" ] && continue
   idx=$(( ${idx:--1} + 1 )); [ $(( idx % NINST )) -ne $INST ] && continue
   md=/var/tmp/mutants/$(echo $file | tr '/' '_')
-  rm -rf $md; /verif/.cache/mutate -file /repo/$file -out $md >/dev/null
+  rm -rf $md; "$VHOME/.cache/mutate" -file /repo/$file -out $md >/dev/null
   total=$(wc -l < $md/index.tsv)
   step=$(( (total + MAXPER - 1) / MAXPER )); [ $step -lt 1 ] && step=1
   while IFS=$'\t' read -r n op line desc; do
@@ -72,7 +75,7 @@ echo "$targets" | while IFS='|' read -r file pkgs props; do
     fi
     verdict="SURVIVED"; detail=""
     for p in $props; do
-      out=$(cd /verif && VERIF_REPO=$wt VERIF_BUDGET_S=12 VERIF_WORKERS=4 VERIF_EVIDENCE_DIR=/var/tmp/seed-evidence-$INST VERIF_REPLAY_DIR=/var/tmp/mut-replays-$INST ./check $p quick 2>&1); rc=$?
+      out=$(cd "$VHOME" && VERIF_REPO=$wt VERIF_BUDGET_S=12 VERIF_WORKERS=4 VERIF_EVIDENCE_DIR=/var/tmp/seed-evidence-$INST VERIF_REPLAY_DIR=/var/tmp/mut-replays-$INST ./check $p quick 2>&1); rc=$?
       if [ $rc -eq 1 ]; then
         verdict="DETECTED"; detail="$p: $(echo "$out" | grep -m1 -oE "rule=[A-Z0-9.]+ sig=('[^']*'|\"[^\"]*\")" | cut -c1-160)"; break
       elif [ $rc -ne 0 ]; then
@@ -82,5 +85,5 @@ echo "$targets" | while IFS='|' read -r file pkgs props; do
     echo -e "$file\t$n\t$op\t$line\t$desc\t$verdict\t$detail" >> $OUT
   done < $md/index.tsv
 done
-cd /verif; git -C /repo worktree remove --force $wt
+cd "$VHOME"; git -C /repo worktree remove --force $wt
 echo "campaign finished: $(grep -c DETECTED $OUT) detected, $(grep -c SURVIVED $OUT) survived, $(grep -c killed-by $OUT) killed by upstream tests, $(grep -c does-not $OUT) do not compile"
